@@ -30,7 +30,7 @@ PROPS = {
                       ("keygrid", 100, 3000), ("enc", 500, 10000)],
                 real=[("conc", 60, 2000)]),
     "C19": dict(fams=[("seqgrid", 40, 2000), ("hist", 3000, 300000)]),
-    "C20": dict(fams=[("faultgrid", 0, 0), ("ecfault", 0, 0), ("s1", 500, 30000), ("sm", 500, 30000), ("cs", 300, 10000),
+    "C20": dict(fams=[("faultgrid", 0, 0), ("seqgrid", 40, 2000), ("ecfault", 0, 0), ("s1", 500, 30000), ("sm", 500, 30000), ("cs", 300, 10000),
                       ("he", 200, 5000)],
                 real=[("entropy", 80, 3000)]),
 }
